@@ -139,7 +139,7 @@ def generate(seed, tier="quick"):
                 c_["min_radius"] = o.choice([0.3, 0.6, 1.0, 1.5])  # caps the SWC radius profile of *this* call only
             calls.append(c_)
     return {"prop": PROPERTY, "shape": shape, "prep": prep, "calls": calls, "steps": o.randint(3, 10), "dt": o.choice(DTS),
-            "solver": o.choice(["bwd_euler", "bwd_euler", "crank_nicolson"]), "stim_seed": o.randrange(1 << 30)}
+            "solver": o.choice(["bwd_euler", "bwd_euler", "crank_nicolson"]), "stim_seed": o.randrange(1 << 30), "integrate_first": o.random() < 0.5}
 
 
 def apply_prep(w, prep, start=0):
@@ -167,6 +167,25 @@ def execute(program):
 
     if w.stopped or w.violations:
         return res()
+    if program.get("integrate_first"):
+        # the module was already simulated once before it is re-discretised (integrate must leave nothing behind that a
+        # later structural edit does not refresh)
+        try:
+            with quiet():
+                w.m.record("v", verbose=False)
+                w.m.select(nodes=[0]).stimulate(jnp.asarray([0.03, 0.05, 0.02]), verbose=False)
+            for vs_ in BACKENDS:
+                try:
+                    simrun.integrate(w.m, dt=program["dt"], solver=program["solver"], vsolver=vs_)
+                except Exception as e:  # noqa: BLE001
+                    if exc_in_harness(e):
+                        raise HarnessError(str(e)) from e
+            with quiet():
+                w.m.delete_recordings()
+                w.m.delete_stimuli()
+            w.bump("fault_knob_integrate_before_set_ncomp")
+        except HarnessError:
+            raise
     # total length of every branch before any set_ncomp (the quantity set_ncomp must preserve)
     branch_total = {}
     for row in range(w.ref.n):
